@@ -445,13 +445,13 @@ theorem versionSkip_none_of_nostream (g : Hub) (ch : String) (o : PubOpts)
   simp only [hst]
 
 theorem add_skip_eq (h : Hub) (ch : String) (pub : Pub) (o : PubOpts) (n : Nat) (p : Pos)
-    (hv : (h.deltaRead ch o n).1.versionSkip ch o = some p) :
-    h.add ch pub o n = ((h.deltaRead ch o n).1, ⟨p, none, true⟩) := by
+    (hv : h.versionSkip ch o = some p) :
+    h.add ch pub o n = (h, ⟨p, none, true⟩) := by
   unfold Hub.add
   simp only [hv]
 
 theorem add_store_eq (h : Hub) (ch : String) (pub : Pub) (o : PubOpts) (n : Nat)
-    (hv : (h.deltaRead ch o n).1.versionSkip ch o = none) :
+    (hv : h.versionSkip ch o = none) :
     h.add ch pub o n = (h.preAdd ch o n).addCore ch pub o (h.deltaRead ch o n).2 := by
   unfold Hub.add Hub.preAdd
   simp only [hv]
@@ -508,7 +508,7 @@ theorem new_not_versionSkip (o : PubOpts) (e : Nat) : ¬ VersionSkip o (MStream.
 /-- the three ways `add` can go, with the hub it starts the tail from -/
 inductive AddCase (h : Hub) (ch : String) (pub : Pub) (o : PubOpts) (n : Nat) : Prop
   | skip (s : MStream Pub) (hst : (h.chans ch).stream = some s) (hv : VersionSkip o s)
-      (he : h.add ch pub o n = ((h.deltaRead ch o n).1, ⟨⟨s.top, s.epoch⟩, none, true⟩))
+      (he : h.add ch pub o n = (h, ⟨⟨s.top, s.epoch⟩, none, true⟩))
   | store (s : MStream Pub) (hst : (h.chans ch).stream = some s) (hv : ¬ VersionSkip o s)
       (he : h.add ch pub o n =
         ((h.preAdd ch o n).set ch { (h.preAdd ch o n).chans ch with
@@ -522,25 +522,20 @@ inductive AddCase (h : Hub) (ch : String) (pub : Pub) (o : PubOpts) (n : Nat) : 
 theorem add_cases (h : Hub) (ch : String) (pub : Pub) (o : PubOpts) (n : Nat) : AddCase h ch pub o n := by
   cases hst : (h.chans ch).stream with
   | some s =>
-    have hd := (deltaRead_stream_some h ch o n s hst).2 ch
-    rw [hst] at hd
     have hp := preAdd_stream_some h ch o n s hst
     by_cases hv : VersionSkip o s
-    · exact .skip s hst hv (add_skip_eq h ch pub o n _ (versionSkip_some _ ch o s hd hv))
-    · have hc := add_store_eq h ch pub o n (versionSkip_none_of_not _ ch o s hd hv)
+    · exact .skip s hst hv (add_skip_eq h ch pub o n _ (versionSkip_some _ ch o s hst hv))
+    · have hc := add_store_eq h ch pub o n (versionSkip_none_of_not _ ch o s hst hv)
       exact .store s hst hv (by rw [hc, addCore_store _ ch pub o _ s hp hv]) hc
   | none =>
-    have hd := deltaRead_stream_none h ch o n hst
     have hp := preAdd_stream_none h ch o n hst
+    have hc := add_store_eq h ch pub o n (versionSkip_none_of_nostream _ ch o hst)
     by_cases hdl : o.useDelta
-    · simp only [hdl, if_true] at hd hp
-      have hc := add_store_eq h ch pub o n
-        (versionSkip_none_of_not _ ch o _ hd (new_not_versionSkip o _))
+    · simp only [hdl, if_true] at hp
       refine .create hst ?_ hc
       rw [hc, addCore_store _ ch pub o _ _ hp (new_not_versionSkip o _)]
       rfl
-    · simp only [hdl, Bool.false_eq_true, if_false] at hd hp
-      have hc := add_store_eq h ch pub o n (versionSkip_none_of_nostream _ ch o hd)
+    · simp only [hdl, Bool.false_eq_true, if_false] at hp
       refine .create hst ?_ hc
       rw [hc, addCore_new _ ch pub o _ hp]
       have : (h.preAdd ch o n).nextEpoch = h.nextEpoch := by
@@ -558,23 +553,17 @@ theorem add_skip_iff (h : Hub) (ch : String) (pub : Pub) (o : PubOpts) (n : Nat)
   · rw [he]; simp only [Bool.false_eq_true, false_iff]
     rintro ⟨t, ht, _⟩; rw [hst] at ht; cases ht
 
-/-- a skipped `add` returns the current top position, leaves every stream as it was, and leaves
-the hub in the state right after the optional delta read — i.e. **completely unchanged** unless
-`UseDelta` is set, in which case only the channel's meta deadline was refreshed by that read -/
+/-- a skipped `add` returns the current top position and leaves the hub **completely unchanged**
+(streams, deadlines, queues; also with `UseDelta`: the version check precedes the delta read) -/
 theorem add_skip_spec (h : Hub) (ch : String) (pub : Pub) (o : PubOpts) (n : Nat)
     (hs : (h.add ch pub o n).2.skip = true) :
-    (h.add ch pub o n).1 = (if o.useDelta then h.touchMeta ch o.metaTTL n else h) ∧
+    (h.add ch pub o n).1 = h ∧
       (h.add ch pub o n).1.abs = h.abs ∧ (h.add ch pub o n).2.prev = none ∧
       (∀ x, ((h.add ch pub o n).1.chans x).stream = (h.chans x).stream) ∧
       ∃ s, (h.chans ch).stream = some s ∧ (h.add ch pub o n).2.pos = ⟨s.top, s.epoch⟩ := by
   rcases add_cases h ch pub o n with ⟨s, hst, hv, he⟩ | ⟨s, hst, hv, he, _⟩ | ⟨hst, he, _⟩
-  · obtain ⟨h1, h2⟩ := deltaRead_stream_some h ch o n s hst
-    rw [he]
-    refine ⟨h1, ?_, rfl, h2, s, hst, rfl⟩
-    simp only
-    rw [h1]; split
-    · exact touchMeta_abs _ _ _ _
-    · rfl
+  · rw [he]
+    exact ⟨rfl, rfl, rfl, fun _ => rfl, s, hst, rfl⟩
   · rw [he] at hs; cases hs
   · rw [he] at hs; cases hs
 
@@ -633,7 +622,7 @@ theorem deltaRead_stream_other (h : Hub) (ch : String) (o : PubOpts) (n : Nat) (
 theorem add_stream_other (h : Hub) (ch : String) (pub : Pub) (o : PubOpts) (n : Nat) (x : String)
     (hx : x ≠ ch) : (((h.add ch pub o n).1).chans x).stream = (h.chans x).stream := by
   rcases add_cases h ch pub o n with ⟨s, hst, hv, he⟩ | ⟨s, hst, hv, he, hc⟩ | ⟨hst, he, hc⟩
-  · rw [he]; exact deltaRead_stream_other h ch o n x hx
+  · rw [he]
   · rw [hc, addCore_stream_other _ ch pub o _ x hx, preAdd_stream]
     exact deltaRead_stream_other h ch o n x hx
   · rw [hc, addCore_stream_other _ ch pub o _ x hx, preAdd_stream]
@@ -719,7 +708,7 @@ theorem add_inv (h : Hub) (hi : h.Inv) (ch : String) (pub : Pub) (o : PubOpts) (
     unfold Hub.preAdd
     exact touchMeta_inv _ (touchExpire_inv _ (deltaRead_inv h hi ch o n) _ _ _) _ _ _
   rcases add_cases h ch pub o n with ⟨s, hst, hv, he⟩ | ⟨s, hst, hv, he, hc⟩ | ⟨hst, he, hc⟩
-  · rw [he]; exact deltaRead_inv h hi ch o n
+  · rw [he]; exact hi
   · rw [hc]; exact addCore_inv _ hpre _ _ _ _
   · rw [hc]; exact addCore_inv _ hpre _ _ _ _
 
